@@ -269,6 +269,45 @@ def r_provenance(c):
                                     qn, f"default_prefix:{k.value.value}", m.loc(mi, call),
                                     f"default prefix {k.value.value!r} is outside the "
                                     f"reserved {RESERVED} name space")
+    # loop variables (inames): every element of an iname tuple is minted
+    for _mi, fd in m.all_functions(modules=[LC]):
+        if m.enclosing_function(fd) is not None:
+            continue
+        qn = m.qualname(fd).replace("pytato.", "", 1)
+        for call in ast.walk(fd):
+            if not isinstance(call, ast.Call):
+                continue
+            f = ast.unparse(call.func)
+            cands = []
+            if f == "domain_for_shape" and call.args:
+                cands.append(call.args[0])
+            if f == "add_store":
+                cands += [k.value for k in call.keywords
+                          if k.arg in ("store_inames", "result_inames")]
+            for cand in cands:
+                node = cand
+                if isinstance(node, ast.Name):
+                    asg = [s_.value for s_ in ast.walk(fd) if isinstance(s_, ast.Assign)
+                           and any(isinstance(t, ast.Name) and t.id == node.id for t in s_.targets)]
+                    asg = [a for a in asg if not (isinstance(a, ast.Constant) and a.value is None)]
+                    if not asg:
+                        continue        # a parameter: checked at the callers
+                    node = asg[0]
+                if isinstance(node, ast.Tuple) and not node.elts:
+                    continue
+                elt = None
+                if isinstance(node, ast.Call) and ast.unparse(node.func) == "tuple" and node.args \
+                        and isinstance(node.args[0], (ast.GeneratorExp, ast.ListComp)):
+                    elt = node.args[0].elt
+                if elt is None:
+                    continue
+                n += 1
+                p = _prov(m, fd, elt)
+                c.check(p == "GENERATED", "R15-PROVENANCE", qn,
+                        f"inames:{m.frag(elt, 40)}", m.loc(LC, call),
+                        f"loop-variable names `{m.frag(elt, 50)}` ({p}) are not drawn from "
+                        "the seeded name generator: they can coincide with a user's "
+                        "argument name")
     if n < 25:
         raise AnalysisError(f"only {n} name-provenance obligations (floor 25)")
     # default prefix of _generate_name_for_temp itself
@@ -360,8 +399,10 @@ def r_clash(c):
             m.loc("pytato.codegen", pre),
             "inputs are renamed/transformed before name clashes are checked")
     cv = m.func("pytato.codegen.check_validity_of_outputs")
-    c.check("NamesValidityChecker()" in ast.unparse(cv) and ast.unparse(cv).count(
-        "NamesValidityChecker()") == 1 and any(isinstance(l, ast.For) for l in ast.walk(cv)),
+    mk = [x for x in ast.walk(cv) if isinstance(x, ast.Call)
+          and ast.unparse(x.func) == "NamesValidityChecker"]
+    in_loop = any(_inside(x, l) for x in mk for l in ast.walk(cv) if isinstance(l, (ast.For, ast.While)))
+    c.check(len(mk) == 1 and not in_loop and any(isinstance(l, ast.For) for l in ast.walk(cv)),
         "R15-CLASH", "codegen.check_validity_of_outputs", "one-checker-for-all-outputs",
         m.loc("pytato.codegen", cv),
         "outputs are validated with separate checkers: a clash between two outputs' "
